@@ -12,17 +12,19 @@ META = {
                  "driver synthesises the template file set of each sequence, builds it, runs it twice with a value or a "
                  "pointer and logs output, UsedVars and the caller's variables; a TLC Trace spec judges the logs",
     "level": "model_checking",
-    "level_text": "TLC explores every sequence of <=3 (quick) / <=4 (thorough) references to one global and <=2 / <=3 references to "
-                  "two globals over the scopes {top|layout, macro, closure, imported macro, rendered file, extending-file macro} x "
-                  "{read, write} x {declaration hoisted or not} x {value, pointer} x {plain, extends} (the longest length without the "
-                  "silent same-name package variable and without hoisted closures), checks that the "
-                  "transcribed mechanism with the proposed fixes is a register, that the mechanism as written leaves the "
-                  "register semantics only when the first reference of the body is inside a function literal or when a "
-                  "value is written in one compiled function and read in another, and exports every sequence; each is "
-                  "replayed into the real BuildTemplate/Run/UsedVars and judged by the register semantics in TLA+.",
+    "level_text": "TLC explores every sequence of references to a global of type int (by value, by pointer) or any (by pointer), plain or "
+                  "extends file shape, where a reference is {read, read through `default`, write} in a scope {top|layout, macro, closure, "
+                  "imported macro, rendered file, extending-file macro}, directly or nested in a further literal/macro, alone or joined to "
+                  "the macro/file of the previous reference, declaration hoisted or not; the alphabet shrinks with the length (quick: all "
+                  "features to length 1, nesting+joining to 2, plain scopes to 3, two globals to 2; thorough: 2, 3, 4 and 3). TLC checks that "
+                  "the transcribed mechanism (as now in the tree) is a register on that space and exports it; every sequence plus seeded "
+                  "random sequences of 3-5 references over all features is replayed into the real BuildTemplate/Run/UsedVars (run twice) and "
+                  "judged by the register semantics in TLA+.",
     "level_note": "Trusted: TLC, the Json module, the Go driver that only synthesises templates from the case and logs. "
-                  "One int type; each reference has its own macro/closure/file; no nesting (closure inside an imported macro, "
-                  "macro of a rendered file), no package-level var initialisers of the extending file, no concurrency of Runs.",
+                  "Types int and any (holding ints); nesting depth 1; a literal refers to one global (joined references put several in "
+                  "one macro); no package-level var initialisers of the extending file, no concurrency of Runs; a non-pointer value "
+                  "for a global of type any is not judged. The historical variants of the mechanism (before the two fixes found by this "
+                  "check) are still model-checked on a small space.",
     "design_ref": "7/C17",
 }
 
@@ -40,9 +42,19 @@ D1 = "value passed to Run ignored when the first reference to the global in the 
 D2 = "non-pointer value supplied to Run: every package-level function (body, imported macro, rendered file, " \
      "extending-file macro) gets its own copy (predefVarIndex appends one Global per function), so a write in one " \
      "is not seen in another"
-PROPOSED_KNOWN = []   # both defects found by this check (D1, D2) were fixed in /repo (known-findings.json, kind "fixed")
+D3 = "`X default e` with a declared global X inside a function literal (a macro declared in a body, or a macro nested in a " \
+     "macro): checkDefault looks the identifier up without recording it as an upvar of the enclosing literals, so the emitter " \
+     "uses the index of the Global as an index into the literal's own variables"
+# D1 and D2 (found by this check) were fixed in /repo (known-findings.json, kind "fixed").  D3 is demonstrated on the
+# unchanged tree: `{% macro M %}[{{ X default 7 }}]{% end %}{{ M() }}` (proposed fix in the family report).
+PROPOSED_KNOWN = [
+    {"kind": "known", "signature": {"fam": "globals", "clause": "run-failed", "got": "hostpanic-run", "op": "d", "lit": True},
+     "what": D3 + " - Run panics with index out of range"},
+    {"kind": "known", "signature": {"fam": "globals", "clause": "read", "got": "other-variable", "op": "d", "lit": True},
+     "what": D3 + " - the default expression shows the value of another global"},
+]
 
-CORE = ["FixedMeetsRef", "AsWrittenDeviatesOnlyIf", "UsedVarsReported"]
+CORE = ["FixedMeetsRef", "UsedVarsReportedFixed"]
 THEOREMS = ["FixedMeetsRef", "AsWrittenDeviatesOnlyIf", "PkgFixLeavesOnlyCross", "DedupFixLeavesOnlyLitFirst",
             "UnitOrderIrrelevant", "UsedVarsReported"]
 
@@ -52,8 +64,9 @@ def text(a):
 
 
 def sample(o):
-    s = {"sup": o["sup"], "ext": o["ext"],
-         "refs": " ".join("%s:%s%s%s%s" % (r["sc"], r["op"], r["var"], ("=%d" % r["v"]) if r["op"] == "w" else "", "^" if r["hoist"] else "")
+    s = {"typ": o["typ"], "sup": o["sup"], "ext": o["ext"],
+         "refs": " ".join("%s%s%s:%s%s%s%s" % ("+" if r.get("join") else "", r["sc"], {0: "", 1: "-c", 2: "-m"}[r.get("nest", 0)],
+                                                r["op"], r["var"], ("=%d" % r["v"]) if r["op"] == "w" else "", "^" if r["hoist"] else "")
                           for r in o["refs"]),
          "outcome": o["outcome"], "out1": text(o["out1"]), "out2": text(o["out2"]), "used": o["used"],
          "caller1": o["caller1"], "caller2": o["caller2"]}
@@ -65,7 +78,7 @@ def sample(o):
 
 
 def case_of(o):
-    return {"id": o["id"], "sup": o["sup"], "ext": o["ext"], "init": o["init"], "refs": o["refs"]}
+    return {"id": o["id"], "typ": o["typ"], "sup": o["sup"], "ext": o["ext"], "init": o["init"], "refs": o["refs"]}
 
 
 def nontrivial(o):
@@ -87,11 +100,12 @@ def judge(ctx, step, obs_path, drift_every=1):
 
 
 def bounds(ctx):
-    return {"MaxLen": ctx.pick(2, 3), "MaxLenLite": ctx.pick(3, 4), "MaxLen2": ctx.pick(2, 3)}
+    return {"MaxLenF": ctx.pick(1, 2), "MaxLenOld": ctx.pick(2, 3), "MaxLenE": ctx.pick(2, 3), "MaxLenLite": ctx.pick(3, 4),
+            "MaxLen2": ctx.pick(2, 3)}
 
 
 def small_bounds(ctx):
-    return {"MaxLen": ctx.pick(2, 3), "MaxLenLite": ctx.pick(2, 3), "MaxLen2": 2}
+    return {"MaxLenF": 1, "MaxLenOld": 2, "MaxLenE": ctx.pick(1, 2), "MaxLenLite": ctx.pick(2, 3), "MaxLen2": ctx.pick(0, 2)}
 
 
 def diag_run(ctx, step, consts, inv):
@@ -182,7 +196,8 @@ def run(ctx, only_cases=None):
     mark("model_check_and_export")
     # replay into the real code
     obs = ctx.work / "obs.ndjson"
-    ctx.drive("c17", cases, obs, timeout=900)
+    nextra = ctx.pick(2000, 25000) if only_cases is None else 0
+    ctx.drive("c17", cases, obs, args=["-extra", str(nextra)], timeout=900)
     rawlines = [l for l in open(obs) if l.strip()]
     allobs = [json.loads(l) for l in rawlines]
     mark("build_driver_and_replay")
@@ -191,11 +206,12 @@ def run(ctx, only_cases=None):
         outcomes[o["outcome"]] = outcomes.get(o["outcome"], 0) + 1
     nobuild = [o for o in allobs if o["outcome"] in ("builderror", "hostpanic-build")]
     ctx.cov.update(evaluations=len(allobs), traces_validated_against_impl=len(allobs) - len(nobuild), outcomes=outcomes,
-                   distinct_nontrivial=len({(o["sup"], o["ext"], tuple((r["sc"], r["op"], r["var"], r["hoist"]) for r in o["refs"]))
+                   distinct_nontrivial=len({(o["typ"], o["sup"], o["ext"], tuple((r["sc"], r["op"], r["var"], r["hoist"], r["nest"], r["join"]) for r in o["refs"]))
                                             for o in allobs if nontrivial(o)}),
-                   rule="every reference sequence of the bounded space exported by TLC (exhaustive), each built once and run twice; "
+                   rule="every reference sequence of the bounded space exported by TLC (exhaustive) plus seeded random sequences of "
+                        "3-5 references over the whole alphabet (ids >= 1000000), each built once and run twice; "
                         "non-trivial = at least two references to a global and at least one of them outside the top level of the body file",
-                   exhaustive=only_cases is None,
+                   exhaustive=only_cases is None, random_extra=nextra,
                    by_scope={sc: sum(1 for o in allobs if any(r["sc"] == sc for r in o["refs"]))
                              for sc in ("top", "layout", "macro", "closure", "imported", "rendered", "extending", "pkgvar")})
     # judge: shards in parallel TLC processes
@@ -208,7 +224,7 @@ def run(ctx, only_cases=None):
         p = ctx.work / f"obs_{k // size}.ndjson"
         p.write_text("".join(rawlines[k:k + size]))
         jobs.append((part, pool.submit(judge, ctx, f"trace_{k // size}", p, drift_every)))
-    allbad, drift = [], {"aswritten": 0, "fixed": 0, "records": 0}
+    allbad, drift = [], {"aswritten": 0, "fixed": 0, "records": 0, "refundef": 0}
     for part, f in jobs:
         b, d = f.result()
         for x in b:
@@ -217,6 +233,8 @@ def run(ctx, only_cases=None):
         for key in drift:
             drift[key] += d[key]
     ctx.cov["judge_shards"] = len(jobs)
+    ctx.cov["ref_undefined"] = drift["refundef"]       # sequences the reference part is not defined for: skipped, never failed
+    ctx.cov["not_judged_value_for_any"] = sum(1 for o in allobs if o["typ"] == "any" and o["sup"] == "value")
     mark("judge")
     badids = {b["id"] for b in allbad}
     merged = {}
